@@ -29,10 +29,10 @@ type c17Case struct {
 const c17NoLimit = 1 << 31
 
 type c17ConnMon struct {
-	limit     int64 // limit in force after the events of this step
-	prevLimit int64 // limit in force at the start of this step
-	maxID     uint32
-	cntBefore int // WB: ClientConn's own slot count before this step's event
+	limit      int64 // limit in force after the events of this step
+	prevLimit  int64 // limit in force at the start of this step
+	maxID      uint32
+	cntBefore  int  // WB: ClientConn's own slot count before this step's event
 	fullBefore bool // WB: the connection had no free slot before this step's event
 	waitBefore int  // WB: requests waiting for a slot / holding a reservation before the event
 
@@ -413,6 +413,11 @@ func c17Exec(t testing.TB, w *vx.W, cs c17Case) {
 	// let every retry back-off of the Transport run out (retries 1..6 wait 1+2+4+8+16+32 s plus 10 % jitter):
 	// a request that is merely waiting for a slot must still be waiting afterwards
 	m.begin()
+	for _, c := range h.connList() {
+		if c.notReading && c.usable() {
+			c.resumeReading() // every case ends with the server reading again: what was stuck reaches the wire and is checked
+		}
+	}
 	time.Sleep(120 * time.Second)
 	m.observe(h.settle())
 	m.quiescent()
@@ -442,14 +447,19 @@ func c17Exec(t testing.TB, w *vx.W, cs c17Case) {
 }
 
 // c17SecondWriter reports whether event ev could make a second client goroutine
-// want the write lock of a connection on which one write is already stuck
-// because the server is not reading. That goroutine would block on a
-// sync.Mutex, which testing/synctest does not treat as durably blocked, so the
-// case could never settle; such cases are outside the explored space.
-// While a write is stuck on connection c the remaining events are: new
-// requests (they queue on the new-request lock, a channel, if the stuck write
-// is a request-header write), PING acknowledgements, resume reading, and
-// everything on other connections.
+// want the write lock (wmu) of a connection whose server is not reading while
+// another goroutine is, or is about to be, stuck in a write holding that lock.
+// The second goroutine would block on a sync.Mutex, which testing/synctest does
+// not treat as durably blocked, so the case could never settle; such cases are
+// outside the explored space (recorded as an assumption).
+//
+// On a not-reading connection c: stuck = a write is stuck (wmu held), hdr = the
+// new-request lock (reqHeaderMu, a channel) is held, pend = a request holding
+// the new-request lock waits for a free slot (strict mode). What remains
+// explorable: new requests while they queue on the channel (the stuck write is
+// a request-header write, or nothing is stuck yet), cancellations and server
+// frames that lead to at most one write, PING acknowledgements, resume reading,
+// and everything on other connections.
 func c17SecondWriter(h *c17cli, conns []*c17Conn, ev string) bool {
 	var target *c17Conn
 	if len(ev) >= 2 && ev[0] != 'C' {
@@ -458,22 +468,27 @@ func c17SecondWriter(h *c17cli, conns []*c17Conn, ev string) bool {
 		}
 	}
 	for _, c := range conns {
-		stuck, hdr := c.writeStuck()
-		if !stuck {
+		if !c.notReading || c.cc == nil {
 			continue
 		}
+		stuck, hdr := c.writeStuck()
+		pend := c.cc.C17Peek().PendingRequests > 0
 		switch ev[0] {
 		case 'Q':
-			if !hdr {
+			if stuck && !hdr {
 				return true // the new request could take the new-request lock and then wait for the write lock
 			}
 		case 'F':
-			if !hdr || c == target {
-				return true // the retry is a new request; the reset ends a request, whose clean-up takes the write lock
+			if c == target || (stuck && !hdr) {
+				return true // the reset request's clean-up takes the write lock while its retry writes HEADERS
 			}
 		case 'S', 'E', 'R':
-			if c == target {
-				return true // SETTINGS acknowledgement; clean-up of the finished request
+			if c == target && (stuck || pend) {
+				return true // SETTINGS acknowledgement; clean-up of the finished request; a released waiter writes HEADERS
+			}
+		case 'P':
+			if c == target && stuck && pend {
+				return true // the acknowledgement releases pending-reset slots: a waiter may proceed to write HEADERS
 			}
 		case 'C':
 			i, _ := strconv.Atoi(ev[1:])
@@ -483,8 +498,8 @@ func c17SecondWriter(h *c17cli, conns []*c17Conn, ev string) bool {
 					last = a.conn
 				}
 			}
-			if last == c.idx && i >= 1 && i <= len(h.reqs) && !h.reqs[i-1].finished() {
-				return true // clean-up of the cancelled request takes the write lock
+			if last == c.idx && i >= 1 && i <= len(h.reqs) && !h.reqs[i-1].finished() && (stuck || pend) {
+				return true // clean-up of the cancelled request takes the write lock; the abort wakes a waiter
 			}
 		}
 	}
@@ -619,8 +634,11 @@ func c17Gen(mode string, depth int, o c17GenOpts, prefix []string, yield func(c1
 func TestVerif_C17(t *testing.T) {
 	vx.Run(t, "C17", func(c *vx.Ctx) {
 		depth := vx.Pick(c, 6, 8)
-		c.Rule(fmt.Sprintf("every statically legal sequence of 1..%d events (shortest first) over {Q new request (<=%d), C_i cancel request i, S<conn><k> server SETTINGS with MAX_CONCURRENT_STREAMS k in {0,1,2} or without the field (<=2 per connection), E<conn><j> response with END_STREAM on the j-th stream of the connection, R<conn><j> RST_STREAM(CANCEL), F<conn><j> RST_STREAM(REFUSED_STREAM) (thorough), P<conn> acknowledge the client's PINGs}, in mode strict (Transport.StrictMaxConcurrentStreams, one connection) and mode pool (default Transport, two connections addressable), plus seeded prefixes; each case runs a fresh real Transport in its own synctest bubble whose dialled connections end in the harness; at the end of every case 120 s of fake time pass (every retry back-off of the Transport expires) and the clauses are evaluated again; a case is non-trivial when all its events were applicable at run time", depth, vx.Pick(c, 3, 4)))
+		c.Rule(fmt.Sprintf("every statically legal sequence of 1..%d events (shortest first) over {Q new request (<=%d), C_i cancel request i, S<conn><k> server SETTINGS with MAX_CONCURRENT_STREAMS k in {0,1,2} or without the field (<=2 per connection), E<conn><j> response with END_STREAM on the j-th stream of the connection, R<conn><j> RST_STREAM(CANCEL), F<conn><j> RST_STREAM(REFUSED_STREAM) (thorough), P<conn> acknowledge the client's PINGs, B<conn> the server stops reading from the connection (the client's writes block: a request-header write gets stuck holding the connection's new-request lock and further requests handed to the connection queue behind it; <=1 per connection), U<conn> the server reads again}, in mode strict (Transport.StrictMaxConcurrentStreams, one connection) and mode pool (default Transport, two connections addressable; one level shallower), plus seeded prefixes (three strict and two pooled ones with the server reading; pooled limit 2 with an idle connection whose server has stopped reading, pooled limit 2 with one request stuck in its header write and one queued behind it, strict limit 1 with a waiting request and the server not reading); each case runs a fresh real Transport in its own synctest bubble whose dialled connections end in the harness; every pool decision is observed through httptrace GotConn; at the end of every case the server reads again on every connection and 120 s of fake time pass (every retry back-off of the Transport expires) and the clauses are evaluated again; a case is non-trivial when all its events were applicable at run time", depth, vx.Pick(c, 3, 4)))
 		c.Assume("limit in force for a new stream = the larger of the MAX_CONCURRENT_STREAMS values delivered before and during the step in which its HEADERS is observed (no limit before the first SETTINGS); a stream is open on the wire from its HEADERS until END_STREAM both ways or RST_STREAM either way")
+		c.Assume("pool clause, black box: when a new request arrives, a connection is at its limit if (streams open on the wire) + (requests the pool handed to it on their first attempt, not handed elsewhere since, not finished, whose HEADERS have not appeared on it) >= the largest limit that can be in force at the client; retried attempts that have not opened a stream are not counted (a request in the Transport's retry back-off holds no slot and cannot be told apart from outside), so the count is a lower bound of the slots a correct client accounts for; only the first pool decision of the new request in its own step is judged")
+		c.Assume("while the server is not reading, and in the step in which it resumes, the limit in force is taken as the largest of the limit at the moment it stopped reading and every limit sent since (the client's read loop may be stuck writing an acknowledgement; streams admitted earlier reach the wire late)")
+		c.Assume("testing/synctest cannot settle while a goroutine waits for a sync.Mutex, so on a connection whose server is not reading at most one client write may be outstanding: events that could make a second goroutine want the connection's write lock while one write is stuck (SETTINGS to be acknowledged, responses/resets/cancellations whose clean-up takes the write lock, anything that could release a strict-mode waiter, a new request that would not queue on the new-request lock) are pruned (outcome pruned:second-writer-on-connection-with-stuck-write); what remains while a header write is stuck: new requests, PING acknowledgements, resume reading, all events on the other connection")
 		c.Assume("a pending request that is not woken when the server RAISES the limit by SETTINGS (ClientConn.processSettings does not broadcast) is not reported: the property only states that excess requests wait; the waiter clause fires only when the step itself released a slot (stream closed, request cancelled, PING acknowledged)")
 		strictO := c17GenOpts{maxQ: vx.Pick(c, 3, 4), conns: 1, limits: "012n", maxS: 2, refused: !c.Quick(), maxB: 1}
 		poolO := c17GenOpts{maxQ: vx.Pick(c, 3, 4), conns: 2, limits: "012", maxS: vx.Pick(c, 1, 2), refused: false, maxB: 1}
